@@ -268,8 +268,41 @@ class SymEval:
             return self.ite(v[1], self.proj(v[2], i), self.proj(v[3], i))
         return self._ov(("proj", v, i))
 
+    def cond(self, c):
+        """Normalise a term used as a condition: ite(c, K1, K2) with constant arms of different
+        truthiness is c (or its negation); `not not c` is c."""
+        while True:
+            if c[0] == "ite" and is_const(c[2]) and is_const(c[3]):
+                try:
+                    a, b = bool(c[2][1]), bool(c[3][1])
+                except Exception:
+                    return c
+                if a and not b:
+                    c = c[1]
+                    continue
+                if b and not a:
+                    c = self.negate(c[1])
+                    continue
+                return const(a)
+            if c[0] == "truth":
+                c = c[1]
+                continue
+            return c
+
+    def negate(self, c):
+        if c[0] == "cmp":
+            return ("cmp", NEGATE[c[1]], c[2], c[3])
+        if c[0] == "not":
+            return c[1]
+        if is_const(c):
+            try:
+                return const(not c[1])
+            except Exception:
+                pass
+        return ("not", c)
+
     def if_(self, s, st: State) -> State:
-        c = self.expr(s.test, st)
+        c = self.cond(self.expr(s.test, st))
         b = self.truth(c)
         if b is True:
             return self.block(s.body, st)
@@ -443,7 +476,7 @@ class SymEval:
             lo = self.expr(sl.lower, st) if sl.lower else const(None)
             hi = self.expr(sl.upper, st) if sl.upper else const(None)
             step = self.expr(sl.step, st) if sl.step else const(None)
-            return ("slice", lo, hi, step)
+            return ("slicespec", lo, hi, step)
         return self.expr(sl, st)
 
     def expr(self, e, st: State):
@@ -526,7 +559,7 @@ class SymEval:
             parts = [p for p in parts if not is_const(p)]
             return parts[0] if len(parts) == 1 else ("and", tuple(parts))
         if isinstance(e, ast.IfExp):
-            c = self.expr(e.test, st)
+            c = self.cond(self.expr(e.test, st))
             t = self.truth(c)
             if t is True:
                 return self.expr(e.body, st)
@@ -597,7 +630,7 @@ class SymEval:
         return top(type(e).__name__)
 
     def index(self, base, idx):
-        if idx[0] == "slice":
+        if idx[0] == "slicespec":
             if is_const(base) and all(is_const(x) for x in idx[1:]):
                 try:
                     return const(base[1][idx[1][1] : idx[2][1] : idx[3][1]])
